@@ -27,7 +27,7 @@ Theorem C08_isready_after : forall zt osort st raw sc,
 Proof. exact isready_answered. Qed.
 
 (* "a go is answered with a bestmove line ... however the search and I/O threads are scheduled": on the session model
-   a schedule is the expiry index of the clock and the index of the send the polling loop holds when it leaves; for
+   a schedule is the expiry index of the clock (the move played is the newest one handed over, F13); for
    every such schedule, in a position with at least one move, the go step prints one bestmove line (after its info
    lines) and the session keeps running from the move printed - the search never hands nothing back *)
 Theorem C08_go_is_answered_under_every_schedule : forall zt osort,
